@@ -41,12 +41,27 @@ func init() {
 	os.Setenv("AWS_ACCESS_KEY_ID", "dummy")
 	os.Setenv("AWS_SECRET_ACCESS_KEY", "dummy")
 	os.Unsetenv("AWS_CA_BUNDLE")
+	// A table that is opened again after a failed commit keeps its client: the
+	// streams attach faults, crash points and request logs to the client they got
+	// when the table was created.
+	s3db.VerifReopening = func(vt *s3db.VirtualTable) {
+		if cl, ok := vt.Tree.Root.VerifS3().(*fakes3.Client); ok {
+			mu.Lock()
+			inherit = cl
+			mu.Unlock()
+		}
+	}
 	s3db.VerifWrapS3 = func(c kv.S3Interface, o s3db.S3Options) kv.S3Interface {
 		mu.Lock()
 		defer mu.Unlock()
 		st := stores[o.Bucket]
 		if st == nil {
 			return c
+		}
+		if inherit != nil {
+			cl := inherit
+			inherit = nil
+			return cl
 		}
 		name := nextCli
 		if name == "" {
@@ -71,6 +86,7 @@ func init() {
 }
 
 var slowLists int64
+var inherit *fakes3.Client
 
 // SlowLists makes every LIST of the clients created from now on take d (0: off), so that
 // concurrent opens overlap inside the storage open.
